@@ -1,7 +1,134 @@
 import CB.Driver.Util
+import CB.Model.Cmp
 namespace CB
+open CB.Cmp
 
-/-- operations of property C06 (op names start with `c06.`) -/
-def dispatchC06 : Dispatch := fun _ _ => none
+private def ordTok (o : Int) : String := if o < 0 then "lt" else if o = 0 then "eq" else "gt"
+private def bitTok (c : Nat) : String := if c = 0 then "0" else "1"
+
+/-- all comparison outputs of one pair of fixed-width unsigned values -/
+private def ucmpAll (x y : List Nat) : String :=
+  s!"{choiceTok (ueq x y)} {choiceTok (ult x y)} {choiceTok (ugt x y)} {choiceTok (ulte x y)} {ordTok (ucmp x y)} {ordTok (ucmpVartime x y)}"
+
+private def icmpAll (x y : List Nat) : String :=
+  s!"{choiceTok (ueq x y)} {choiceTok (ilt x y)} {choiceTok (igt x y)} {ordTok (icmp x y)} {ordTok (icmpVartime x y)}"
+
+/-- spec (L0): the order of the represented integers -/
+private def natCmpAll (a b : Nat) : String :=
+  let o : Int := if a < b then -1 else if a = b then 0 else 1
+  s!"{bitTok (if a = b then 1 else 0)} {bitTok (if a < b then 1 else 0)} {bitTok (if a > b then 1 else 0)} {bitTok (if a ≤ b then 1 else 0)} {ordTok o} {ordTok o}"
+private def intCmpAll (a b : Int) : String :=
+  let o : Int := if a < b then -1 else if a = b then 0 else 1
+  s!"{bitTok (if a = b then 1 else 0)} {bitTok (if a < b then 1 else 0)} {bitTok (if a > b then 1 else 0)} {ordTok o} {ordTok o}"
+
+def dispatchC06 : Dispatch := fun op args =>
+  match op, args with
+  | "c06.w.cmp", [a, b] =>
+    match hexToNat? a, hexToNat? b with
+    | some a, some b =>
+      let l1 := s!"{choiceTok (fromWordEq a b)} {choiceTok (fromWordLt a b)} {choiceTok (fromWordGt a b)} {ordTok (limbCmp a b)} {bitTok (a % 2)} {choiceTok (choiceNot (fromWordNonzero a))}"
+      let o : Int := if a < b then -1 else if a = b then 0 else 1
+      let l0 := s!"{bitTok (if a = b then 1 else 0)} {bitTok (if a < b then 1 else 0)} {bitTok (if a > b then 1 else 0)} {ordTok o} {bitTok (a % 2)} {bitTok (if a = 0 then 1 else 0)}"
+      some s!"{l1} ;; {l0}"
+    | _, _ => badArgs
+  | "c06.u.cmp", [n, a, b] =>
+    match n.toNat?, hexToNat? a, hexToNat? b with
+    | some n, some a, some b => some s!"{ucmpAll (toLimbs n a) (toLimbs n b)} ;; {natCmpAll a b}"
+    | _, _, _ => badArgs
+  | "c06.u.tests", [n, a] =>   -- is_zero is_nonzero(is_zero negated) is_odd is_even is_one
+    match n.toNat?, hexToNat? a with
+    | some n, some a =>
+      let x := toLimbs n a
+      let l1 := s!"{choiceTok (choiceNot (isNonzero x))} {choiceTok (isOdd x)} {choiceTok (choiceNot (isOdd x))} {choiceTok (ueq x (uone n))}"
+      let l0 := s!"{bitTok (if a = 0 then 1 else 0)} {bitTok (a % 2)} {bitTok (1 - a % 2)} {bitTok (if a = 1 then 1 else 0)}"
+      some s!"{l1} ;; {l0}"
+    | _, _ => badArgs
+  | "c06.i.cmp", [n, a, b] =>
+    match n.toNat?, hexToNat? a, hexToNat? b with
+    | some n, some a, some b =>
+      let x := toLimbs n a; let y := toLimbs n b
+      some s!"{icmpAll x y} ;; {intCmpAll (toInt x) (toInt y)}"
+    | _, _, _ => badArgs
+  | "c06.i.tests", [n, a] =>   -- is_negative is_positive is_min is_max is_zero
+    match n.toNat?, hexToNat? a with
+    | some n, some a =>
+      let x := toLimbs n a
+      let v := toInt x
+      let neg := isNegative x
+      let pos := choiceNot neg &&& isNonzero x
+      let imin := toLimbs n (B ^ n / 2)
+      let imax := toLimbs n (B ^ n / 2 - 1)
+      let l1 := s!"{choiceTok neg} {choiceTok pos} {choiceTok (ueq x imin)} {choiceTok (ueq x imax)} {choiceTok (choiceNot (isNonzero x))}"
+      let l0 := s!"{bitTok (if v < 0 then 1 else 0)} {bitTok (if v > 0 then 1 else 0)} {bitTok (if v = -((B ^ n / 2 : Nat) : Int) then 1 else 0)} {bitTok (if v = ((B ^ n / 2 - 1 : Nat) : Int) then 1 else 0)} {bitTok (if v = 0 then 1 else 0)}"
+      some s!"{l1} ;; {l0}"
+    | _, _ => badArgs
+  | "c06.b.cmp", [na, a, nb, b] =>
+    match na.toNat?, hexToNat? a, nb.toNat?, hexToNat? b with
+    | some na, some a, some nb, some b =>
+      let x := toLimbs na a; let y := toLimbs nb b
+      let l1 := s!"{bitTok (bctEq x y)} {choiceTok (bctLt x y)} {choiceTok (bctGt x y)} {ordTok (bcmp x y)}"
+      let o : Int := if a < b then -1 else if a = b then 0 else 1
+      let l0 := s!"{bitTok (if a = b then 1 else 0)} {bitTok (if a < b then 1 else 0)} {bitTok (if a > b then 1 else 0)} {ordTok o}"
+      some s!"{l1} ;; {l0}"
+    | _, _, _, _ => badArgs
+  | "c06.b.cmp_vartime", [n, a, b] =>
+    match n.toNat?, hexToNat? a, hexToNat? b with
+    | some n, some a, some b =>
+      let o : Int := if a < b then -1 else if a = b then 0 else 1
+      some s!"{ordTok (ucmpVartime (toLimbs n a) (toLimbs n b))} ;; {ordTok o}"
+    | _, _, _ => badArgs
+  -- equal values must hash equally: prints `<eq> <hash-input-equal or - when not eq>`
+  | "c06.u.hash", [n, a, b] =>
+    match n.toNat?, hexToNat? a, hexToNat? b with
+    | some n, some a, some b =>
+      let x := toLimbs n a; let y := toLimbs n b
+      let e := ueq x y = WMAX
+      let l1 := if e then s!"1 {bitTok (if hashInputFixed x = hashInputFixed y then 1 else 0)}" else "0 -"
+      let l0 := if a = b then "1 1" else "0 -"
+      some s!"{l1} ;; {l0}"
+    | _, _, _ => badArgs
+  | "c06.b.hash", [na, a, nb, b] =>
+    match na.toNat?, hexToNat? a, nb.toNat?, hexToNat? b with
+    | some na, some a, some nb, some b =>
+      let x := toLimbs na a; let y := toLimbs nb b
+      let e := bctEq x y = 1
+      let l1 := if e then s!"1 {bitTok (if hashInputBoxed x = hashInputBoxed y then 1 else 0)}" else "0 -"
+      let l0 := if a = b then "1 1" else "0 -"
+      some s!"{l1} ;; {l0}"
+    | _, _, _, _ => badArgs
+  -- selection: select, assign, swap with choice c in {0,1}
+  | "c06.u.select", [n, a, b, c] =>
+    match n.toNat?, hexToNat? a, hexToNat? b, c.toNat? with
+    | some n, some a, some b, some c =>
+      let x := toLimbs n a; let y := toLimbs n b; let m := maskOfBit c
+      let sw := uswap x y m
+      let l1 := s!"{limbsHex (uselect x y m)} {limbsHex (uselect x y m)} {limbsHex sw.1} {limbsHex sw.2}"
+      let l0 := if c = 0 then s!"{natToHex a} {natToHex a} {natToHex a} {natToHex b}" else s!"{natToHex b} {natToHex b} {natToHex b} {natToHex a}"
+      some s!"{l1} ;; {l0}"
+    | _, _, _, _ => badArgs
+  | "c06.b.select", [n, a, b, c] =>   -- ct_select, ct_assign, ct_swap(2), conditional_negate(a)
+    match n.toNat?, hexToNat? a, hexToNat? b, c.toNat? with
+    | some n, some a, some b, some c =>
+      let x := toLimbs n a; let y := toLimbs n b; let m := maskOfBit c
+      let sw := uswap x y m
+      let l1 := s!"{limbsHexLen (uselect x y m)} {limbsHexLen (uselect x y m)} {limbsHexLen sw.1} {limbsHexLen sw.2} {limbsHexLen (uselect x (wrappingNeg x) m)}"
+      let neg := (B ^ n - a) % B ^ n
+      let l0 := if c = 0 then s!"{n}:{natToHex a} {n}:{natToHex a} {n}:{natToHex a} {n}:{natToHex b} {n}:{natToHex a}"
+                else s!"{n}:{natToHex b} {n}:{natToHex b} {n}:{natToHex b} {n}:{natToHex a} {n}:{natToHex neg}"
+      some s!"{l1} ;; {l0}"
+    | _, _, _, _ => badArgs
+  | "c06.w.select", [a, b, c] =>
+    match hexToNat? a, hexToNat? b, c.toNat? with
+    | some a, some b, some c =>
+      some s!"{natToHex (selectWord a b (maskOfBit c))} ;; {natToHex (if c = 0 then a else b)}"
+    | _, _, _ => badArgs
+  -- option-like results: is_some and unwrap_or for ConstCtOption / CtOption built from (value, choice)
+  | "c06.u.ctoption", [n, a, d, c] =>
+    match n.toNat?, hexToNat? a, hexToNat? d, c.toNat? with
+    | some _, some a, some d, some c =>
+      let r := if c = 0 then d else a
+      some s!"{c} {natToHex r} {c} {natToHex r}"
+    | _, _, _, _ => badArgs
+  | _, _ => none
 
 end CB
